@@ -17,7 +17,9 @@ RULE = ('A true system (1-6 base stations 1.2-3 m above the floor, random orient
         'systems shrunk/enlarged by factors 0.2..5 with rays synthesised independently from the true geometry (Crazyflie poses with roll '
         'and pitch); every translation x the same factor, rotations unchanged, result == true system when the sensor diagonal is the '
         'reference (both the geometric diagonal and the library constant). Inputs are deep-compared before/after. Non-trivial = misalignment '
-        '> 15 deg or > 1.5 m, a minimal point layout, a tilted Crazyflie pose, or a scale factor != 1.')
+        '> 15 deg or > 1.5 m, a minimal point layout, a tilted Crazyflie pose, or a scale factor != 1. One system in five is almost aligned '
+        'already (<= 0.02 deg, <= 0.8 mm): it must come out exact to 10 um. scale_fixed_point also with the reference turned 2..25 deg away from '
+        'the estimated position; scale_diagonals also with a sample without angles in the list.')
 ASSUMPTIONS = ['reference points are noise free for the 1 mm claim (noisy layouts only check rigidity)',
                'plane samples are not collinear with the X axis (otherwise the plane is not determined)']
 
